@@ -38,10 +38,40 @@ def run_case(case, rnd, n_points):
     kind = str(case["kind"])
     rec = {"fam": fam, "cens": str(case["cens"]), "pos": str(case["pos"]), "shp": str(case["shp"]), "src": bool(case["src"]),
            "yb": str(case["yb"]), "pb": str(case["pb"]), "kind": kind, "n_points": 0}
-    ok, fin, lay = True, True, True
+    ok, fin, lay, routes = True, True, True, True
     worst = None
     for _ in range(n_points):
         env = {"pi": math.pi}
+        try:
+            got, ref, lay_p, routes_p = _point(fam, term, kind, rec, env, rnd)
+        except Exception as e:  # noqa: BLE001 - the library raised on a value inside the support: a verdict, not a machinery failure
+            got, ref, lay_p, routes_p = float("nan"), None, False, False
+            if worst is None:
+                worst = {"env": {k: v for k, v in env.items() if k != "pi"}, "raised": f"{type(e).__name__}: {str(e)[:200]}"}
+        lay &= lay_p
+        routes &= routes_p
+        rec["n_points"] += 1
+        m = ref is not None and close(got, ref, rel=5e-4 if fam == "weibull" else 2e-4)
+        if kind == "zero":
+            m = abs(got) <= 1e-6
+        if kind == "penalty":
+            m = math.isfinite(got) and got >= 1e300       # prohibitive but finite
+        if not m and worst is None:
+            worst = {"env": {k: v for k, v in env.items() if k != "pi"}, "got": got, "expected": ref}
+        ok &= m
+        fin &= math.isfinite(got)
+    rec.update(all_match=bool(ok), all_finite=bool(fin), layouts_match=bool(lay), routes_agree=bool(routes), worst=worst)
+    return rec
+
+
+def _same_values(a, b):
+    return a.shape == b.shape and bool(torch.allclose(a, b, rtol=1e-6, atol=1e-6, equal_nan=False))
+
+
+def _point(fam, term, kind, rec, env, rnd):
+    """One numeric point of the case: (value of the real family, value of the term, layouts agree, routes agree)."""
+    lay, routes = True, True
+    if True:
         if fam == "normal":
             env.update(x=rnd.uniform(-3, 80), mu=rnd.uniform(-3, 80), sigma=rnd.choice([0.05, 0.5, 2.0, 7.5]))
             x = WeightedTensor(torch.tensor([[env["x"]]], dtype=torch.float32))
@@ -51,6 +81,9 @@ def run_case(case, rnd, n_points):
             xs = torch.tensor([[[env["x"], env["x"] + 1.0], [env["mu"], env["x"]]]], dtype=torch.float32)
             sig = torch.tensor([env["sigma"], 2 * env["sigma"]])
             g2 = NormalFamily.nll(WeightedTensor(xs), torch.tensor(env["mu"]), sig).value
+            # the same values through the other public route (value and derivative at once, used by the optimisation-based
+            # personalization)
+            routes &= _same_values(NormalFamily.nll_and_jacobian(WeightedTensor(xs), torch.tensor(env["mu"]), sig)[0].value, g2)
             for (a, b, f) in ((0, 0, 0), (0, 0, 1), (0, 1, 0), (0, 1, 1)):
                 e2 = dict(env, x=float(xs[a, b, f]), sigma=float(sig[f]))
                 lay &= close(float(g2[a, b, f]), ev(term, e2))
@@ -64,6 +97,7 @@ def run_case(case, rnd, n_points):
             x = WeightedTensor(torch.tensor([[v] for v in xs], dtype=torch.float32))
             probs = torch.tensor([0.3, 0.7])
             g = MixtureNormalFamily._nll(x, torch.tensor(mus), torch.tensor(sigs), probs).value   # (n_ind, n_clusters)
+            routes &= _same_values(MixtureNormalFamily._nll_and_jacobian(x, torch.tensor(mus), torch.tensor(sigs), probs)[0].value, g)
             env.update(x=xs[0], mu=mus[0], sigma=sigs[0])
             got = float(g[0, 0])
             ref = ev(term, env)
@@ -75,6 +109,7 @@ def run_case(case, rnd, n_points):
             loc2 = torch.tensor([[mus[0], mus[1]], [mus[1], mus[0]]], dtype=torch.float32)
             sc2 = torch.tensor(sigs[1])
             g2 = MixtureNormalFamily._nll(WeightedTensor(xv), loc2, sc2, probs).value                               # (n_ind, n_sources, n_clusters)
+            routes &= _same_values(MixtureNormalFamily._nll_and_jacobian(WeightedTensor(xv), loc2, sc2, probs)[0].value, g2)
             for i in range(3):
                 for sidx in range(2):
                     for c in range(2):
@@ -125,18 +160,7 @@ def run_case(case, rnd, n_points):
                        ("mul", ("sub", ("var", "rho"), ("num", 1, 1)), ("log", ("div", ("sub", ("var", "t"), ("var", "tau")), NU(rec["src"])))))
                 exp_other = _ev(surv, e3) - (_ev(haz, e3) if (not observed) else 0.0)
                 lay &= close(float(g2[i, j]), exp_other, rel=5e-4)
-        rec["n_points"] += 1
-        m = close(got, ref, rel=5e-4 if fam == "weibull" else 2e-4)
-        if kind == "zero":
-            m = abs(got) <= 1e-6
-        if kind == "penalty":
-            m = math.isfinite(got) and got >= 1e300       # prohibitive but finite
-        if not m and worst is None:
-            worst = {"env": {k: v for k, v in env.items() if k != "pi"}, "got": got, "expected": ref}
-        ok &= m
-        fin &= math.isfinite(got)
-    rec.update(all_match=bool(ok), all_finite=bool(fin), layouts_match=bool(lay), worst=worst)
-    return rec
+    return got, ref, lay, routes
 
 
 def NU(src):
